@@ -43,7 +43,7 @@ def sortStrings (l : List String) : List String := (l.toArray.qsort (· < ·)).t
 def showPaths (ps : List Path) : String := ",".intercalate (sortStrings (ps.map encPath))
 
 /-- Pre-order tokens `d:<name>`, `f:<name>`, `u` → forest. The stack holds the open directories. -/
-def parseTree (toks : List String) : Option (List FTree) :=
+def parseFTree (toks : List String) : Option (List FTree) :=
   let rec go : List String → List (Name × List FTree) → List FTree → Option (List FTree)
     | [], [], acc => some acc.reverse
     | [], _ :: _, _ => none
@@ -75,7 +75,7 @@ def b01 (s : String) : Bool := s == "1"
 -/
 def cleanHandle (st : CleanSt) (cmd : String) (a : Args) : CleanSt × String :=
   let fs? : Option (Path × List FTree) := do
-    let forest ← parseTree (splitList (a.get "tree"))
+    let forest ← parseFTree (splitList (a.get "tree"))
     pure (decPath (a.get "base"), forest)
   match cmd with
   | "clean.pmatch" =>
